@@ -151,7 +151,7 @@ func init() {
 			ID: "C02",
 			Runs: []Run{
 				{Harness: "zzverif/zzh.ZZC02Basic", Desc: "every instantiation form (T{}, &T{}, elided slice/map element, new(T), var x T, var x,y T) and the negatives (*T var, blank, initialised var, unannotated type), inside/outside the listed constructors, package-level vars before/after a constructor; constructor list spelling symbolic", Bounds: map[string]interface{}{"skeleton": "c02SrcA", "holes": 1}},
-				{Harness: "zzverif/zzh.ZZC02Forms", Desc: "two-file package whose second file never spells the annotated type: alias (T{}, new, var), named slice / pointer-map types with elided elements, []*T / map[K]*T elided pointer elements, arrays, nested literals, literals as field values, new((T)), closures inside a constructor, a constructor in the other file, init, generic function, method, nested blocks, go/defer closures, package-level vars; constructor list symbolic over 4 spellings", Bounds: map[string]interface{}{"skeleton": "c02SrcF1+F2", "sites": 25, "list_spellings": 4}},
+				{Harness: "zzverif/zzh.ZZC02Forms", Desc: "two-file package whose second file never spells the annotated type: alias (T{}, new, var), named slice / pointer-map types with elided elements, []*T / map[K]*T elided pointer elements, arrays, nested literals, literals as field values, new((T)), closures inside a constructor, a constructor in the other file, init, generic function, method, nested blocks, go/defer closures, package-level vars, literals inside constant expressions and array-length type expressions (package-level and local const/type); constructor list symbolic over 4 spellings", Bounds: map[string]interface{}{"skeleton": "c02SrcF1+F2", "sites": 32, "list_spellings": 4}},
 				{Harness: "zzverif/zzh.ZZC02Local", Desc: "a function-local type sharing the annotated type's name (T{}, new(T), var: nothing reported) and a local function value named new called with a *T (not an instantiation)", Bounds: map[string]interface{}{"skeleton": "c02SrcLocal"}},
 				{Harness: "zzverif/zzh.ZZCrossImmCtor", Desc: "instantiations in the importing package (T{}, new(T), var), incl. all three forms inside a same-named function of the importer", Bounds: map[string]interface{}{"skeleton": "crossSrc{D,U}", "holes": 4}},
 			},
@@ -275,7 +275,7 @@ func init() {
 			ID: "C09",
 			Runs: []Run{
 				{Harness: "zzverif/zzh.ZZC09Poisoned", PoisonOptional: true, Desc: "(c) every checker with empty local annotations and empty-or-absent imported facts returns no violation under symbolic configuration, with pass.Files / TypesInfo / Fset poisoned (any read aborts): no bound on the analysed program", Bounds: map[string]interface{}{"program": "unbounded (never read)", "imports": 2}},
-				{Harness: "zzverif/zzh.ZZC09Placement", Desc: "(b') VALID annotation lines (5 keywords) at placements that are not doc comments of top-level declarations: trailing comment of a type without doc (multi-line and one-line), a quoted example inside a block-comment doc, doc of a local type, comment in a body, doc of a var; any two at a time; the program mutates/instantiates/uses those types: no annotation, no diagnostic", Bounds: map[string]interface{}{"placements": 6, "non_plain": "<= 2"}},
+				{Harness: "zzverif/zzh.ZZC09Placement", Desc: "(b') VALID annotation lines (5 keywords) at placements that are not doc comments of top-level declarations: trailing comment of a type without doc (multi-line and one-line), a quoted example inside a block-comment doc, doc of a local type, comment in a body, doc of a var, doc of a type local to a function literal in a package-level initialiser that shadows a package-level type; any two at a time; the program mutates/instantiates/uses those types: no annotation, no diagnostic", Bounds: map[string]interface{}{"placements": 7, "non_plain": "<= 2"}},
 				{Harness: "zzverif/zzh.ZZC09Corpus", Desc: "(b) six skeleton programs of C01-C04 with every annotation comment replaced by a near-miss (8 kinds, two independent choices): no annotation, no marker, no diagnostic", Bounds: map[string]interface{}{"programs": 6, "near_miss_kinds": 8}},
 			},
 			Post: func(c *checkCtx) {
